@@ -20,8 +20,8 @@ Notation emit := (emit_ident istart irest common).
 
 (* ---------------------------------------------------------------- table obligations *)
 
-(* every character valid_ident admits is an identifier character of the SQL lexer (a letter or _ first --
-   $ being the recorded exception F32 --, letters digits _ $ after) and is its own lower-case form: so a bare
+(* every character valid_ident admits is an identifier character of the SQL lexer (a letter or _ first -- in
+   particular not $, which would make a bind parameter --, letters digits _ $ after) and is its own lower-case form: so a bare
    emission only ever happens for names that survive case folding (why upper-case names must be quoted) *)
 Theorem c09_ident_classes_ok : classes_ok istart irest = true.
 Proof. vm_compute. reflexivity. Qed.
@@ -51,45 +51,20 @@ Print Assumptions c09_prefixes.
 
 (* ---------------------------------------------------------------- identifiers *)
 
-(* FULL STATEMENT (false of the unchanged tree, findings F18 and F32):
-     ident_roundtrip : forall row k s, In row rows -> no backtick in s ->
-        ident_denotes k q (emit (identd_of extra row) s) = Some s
-   ''the emitted text is one identifier token that names exactly s''. *)
-
-(* F18: a name containing two adjacent double quotes is emitted with them un-doubled: ''a''''b'' names a''b *)
-Theorem ident_roundtrip_refuted :
-  exists s, ident_denotes FoldNone 34 (emit {| iq := 34; always_quoted := false; extra_kw := [] |} s) <> Some s.
-Proof. exists [97; 34; 34; 98]. vm_compute. discriminate. Qed.
-Print Assumptions ident_roundtrip_refuted.
-
-(* F18: two different names are emitted as the same text *)
-Theorem ident_merge_refuted :
-  exists s1 s2, s1 <> s2 /\ emit_quoted 34 s1 = emit_quoted 34 s2.
-Proof. exists [97; 34; 34; 98], [97; 34; 98]. split; [discriminate | vm_compute; reflexivity]. Qed.
-Print Assumptions ident_merge_refuted.
-
-(* F18: backslash-quote: the emitted text is not one identifier *)
-Theorem ident_backslash_quote_refuted :
-  exists s, sql_lex std_sql (emit_quoted 34 s) = [TQuoted 34 [97; 92]; TWord [98]; TUnterminated].
-Proof. exists [97; 92; 34; 98]. vm_compute. reflexivity. Qed.
-Print Assumptions ident_backslash_quote_refuted.
-
-(* F32: a name starting with $ passes valid_ident and is emitted bare; no SQL lexer reads $a as an identifier
-   (SQLite and PostgreSQL read a parameter) *)
-Theorem ident_dollar_refuted :
-  exists s, emit {| iq := 34; always_quoted := false; extra_kw := [] |} s = s /\ sql_lex std_sql s = [TPunct 36; TWord [97]].
-Proof. exists [36; 97]. split; vm_compute; reflexivity. Qed.
-Print Assumptions ident_dollar_refuted.
-
-(* PARTIAL: for every dialect row of the source, every folding behaviour except upper-casing of bare words
-   (unless the dialect always quotes), and EVERY name outside the known classes (contains neither q q nor
-   backslash q for the dialect's quote character q; does not start with $; is not the wildcard star) *)
-Theorem ident_roundtrip_partial : forall row k s,
-  In row rows -> (k = FoldUpper -> snd row = true) ->
-  esc_known (snd (fst row)) s = false -> is_star s = false -> starts_with 36 s = false ->
+(* FULL STATEMENT (holds since the fixes 68466ba / b5c2cd4): for every dialect row of the source, every folding
+   behaviour of bare words except upper-casing (unless the dialect always quotes), and EVERY name other than the
+   wildcard star, the emitted text is one identifier token that names exactly s *)
+Theorem ident_roundtrip : forall row k s,
+  In row rows -> (k = FoldUpper -> snd row = true) -> is_star s = false ->
   ident_denotes k (snd (fst row)) (emit (identd_of extra row) s) = Some s.
 Proof. exact (ident_roundtrip_rows istart irest common extra rows c09_ident_classes_ok c09_quote_chars_ok). Qed.
-Print Assumptions ident_roundtrip_partial.
+Print Assumptions ident_roundtrip.
+
+(* two different names are never emitted as the same text *)
+Theorem ident_no_merge : forall row s1 s2, In row rows -> is_star s1 = false -> is_star s2 = false ->
+  emit (identd_of extra row) s1 = emit (identd_of extra row) s2 -> s1 = s2.
+Proof. exact (emit_ident_injective istart irest common extra rows c09_ident_classes_ok c09_quote_chars_ok). Qed.
+Print Assumptions ident_no_merge.
 
 Theorem bare_implies_casefold_fixpoint : forall s, valid_ident istart irest s = true -> lower_ascii s = s.
 Proof. exact (fun s => bare_casefold_fixpoint istart irest s c09_ident_classes_ok). Qed.
@@ -98,20 +73,30 @@ Print Assumptions bare_implies_casefold_fixpoint.
 (* a name that is a keyword of the executing engine, in any letter case, is never emitted bare *)
 Theorem keyword_is_quoted : forall d s,
   mem_str (upper_ascii s) GenKeywords.sqlite_engine_keywords = true ->
-  emit d s = emit_quoted (iq d) s /\ starts_with (iq d) (emit d s) = true.
+  emit d s = emit_ident_quoted (iq d) s /\ starts_with (iq d) (emit d s) = true.
 Proof. exact (keyword_quoted_rows istart irest common GenKeywords.sqlite_engine_keywords c09_sqlite_keywords_covered). Qed.
 Print Assumptions keyword_is_quoted.
 
-(* the proposed repair (double the quote characters before handing the name to sqlparser) gives the full statement
-   for the quoted form *)
-Theorem ident_quoted_fixed : forall d q s, (q = 34 \/ q = 96) -> sql_lex d (emit_quoted_fixed q s) = [TQuoted q s].
-Proof. exact quoted_fixed_lexes_as_name. Qed.
-Print Assumptions ident_quoted_fixed.
+Theorem ident_quoted_roundtrip : forall d q s, (q = 34 \/ q = 96) -> sql_lex d (emit_ident_quoted q s) = [TQuoted q s].
+Proof. exact ident_quoted_lexes_as_name. Qed.
+Print Assumptions ident_quoted_roundtrip.
+
+(* ---- facts about the DEPENDENCY (sqlparser's Ident Display alone, emit_quoted), which is why prqlc doubles the quote
+   characters itself; this is what finding F18 (fixed) consisted of *)
+Theorem sqlparser_ident_display_refuted :
+  exists s, sql_lex std_sql (emit_quoted 34 s) <> [TQuoted 34 s].
+Proof. exists [97; 34; 34; 98]. vm_compute. discriminate. Qed.
+Print Assumptions sqlparser_ident_display_refuted.
+
+Theorem sqlparser_ident_display_merge_refuted :
+  exists s1 s2, s1 <> s2 /\ emit_quoted 34 s1 = emit_quoted 34 s2.
+Proof. exists [97; 34; 34; 98], [97; 34; 98]. split; [discriminate | vm_compute; reflexivity]. Qed.
+Print Assumptions sqlparser_ident_display_merge_refuted.
 
 (* ---------------------------------------------------------------- generated names *)
 
-(* the regenerate-until-unused loop (assign_names, RelVarNameAssigner): whatever comes out is not in the used set,
-   something always comes out, and a name that was free is kept as it is *)
+(* the regenerate-until-unused loop (assign_names, RelVarNameAssigner, and since 75c6718 anchor_split): whatever comes
+   out is not in the used set, something always comes out, and a name that was free is kept as it is *)
 Theorem generated_names_fresh : forall p used fuel cur n nm n',
   regen fuel p used cur n = Some (nm, n') -> ~ In nm used.
 Proof. exact regen_fresh. Qed.
@@ -137,29 +122,26 @@ Theorem user_table_name_kept : forall p nm ds names n l n',
 Proof. exact assign_names_keeps_user. Qed.
 Print Assumptions user_table_name_kept.
 
-(* FULL STATEMENT (false, finding F31):
-     generated_column_names_fresh : forall cols n, NoDup (somes (fst (split_names col_prefix cols [] n))).
-   anchor_split replaces a duplicate by ONE generated name without checking it: *)
-Theorem generated_column_names_refuted :
-  exists cols n, ~ NoDup (somes (fst (split_names GenIdentDialect.col_prefix cols [] n))).
+(* FULL STATEMENT (holds since fix 75c6718): the column names at a sub-query split are pairwise distinct, for every
+   list of column names -- including user columns spelled like generated names -- and every generator state *)
+Theorem generated_column_names_fresh : forall p cols n,
+  exists l n', split_names p cols [] n = Some (l, n') /\ NoDup (somes l) /\ length l = length cols.
+Proof. exact split_names_fresh. Qed.
+Print Assumptions generated_column_names_fresh.
+
+Theorem user_column_name_kept : forall p nm cs used n l n',
+  ~ In nm used -> split_names p (Some nm :: cs) used n = Some (l, n') -> exists l', l = Some nm :: l'.
+Proof. exact split_names_keeps. Qed.
+Print Assumptions user_column_name_kept.
+
+(* what the repair bought: the code before 75c6718 (ONE regeneration, unchecked) was not collision-free *)
+Theorem single_regeneration_refuted :
+  exists cols n, ~ NoDup (somes (fst (split_names_once GenIdentDialect.col_prefix cols [] n))).
 Proof.
   exists [Some (GenIdentDialect.col_prefix ++ [48]); Some [105; 100]; Some [105; 100]], 0.
   vm_compute. apply not_nodup_witness. right. left. reflexivity.
 Qed.
-Print Assumptions generated_column_names_refuted.
-
-(* PARTIAL: when no column at the split is spelled like a name the generator can still produce *)
-Theorem generated_column_names_partial : forall p cols n,
-  (forall k, n <= k -> ~ In (Some (gen_name p k)) cols) ->
-  NoDup (somes (fst (split_names p cols [] n))).
-Proof. exact split_names_nodup. Qed.
-Print Assumptions generated_column_names_partial.
-
-(* the repair (the same loop as in assign_names) is collision-free for all inputs *)
-Theorem generated_column_names_fixed : forall p cols n l n',
-  split_names_fixed p cols [] n = Some (l, n') -> NoDup (somes l).
-Proof. exact split_names_fixed_nodup. Qed.
-Print Assumptions generated_column_names_fixed.
+Print Assumptions single_regeneration_refuted.
 
 (* ---------------------------------------------------------------- non-vacuity *)
 Example c09_ex_bare : emit {| iq := 34; always_quoted := false; extra_kw := [] |} [97; 95; 49] = [97; 95; 49].            (* a_1 *)
@@ -173,4 +155,8 @@ Proof. vm_compute. reflexivity. Qed.
 Example c09_ex_regen : regen 5 [116] [[116;48]; [116;49]] None 0 = Some ([116;50], 3).
 Proof. vm_compute. reflexivity. Qed.
 Example c09_ex_rows : find_dialect [115;113;108;105;116;101] rows = Some ([115;113;108;105;116;101], 34, false).
+Proof. vm_compute. reflexivity. Qed.
+Example c09_ex_dollar : emit {| iq := 34; always_quoted := false; extra_kw := [] |} [36; 97] = [34; 36; 97; 34].              (* $a is quoted *)
+Proof. vm_compute. reflexivity. Qed.
+Example c09_ex_two_quotes : emit {| iq := 34; always_quoted := false; extra_kw := [] |} [97; 34; 34; 98] = [34; 97; 34; 34; 34; 34; 98; 34].
 Proof. vm_compute. reflexivity. Qed.
